@@ -17,19 +17,27 @@ DRIVER = "C18"
 
 RULE = ("collapse: every absolute path of 1..6 components over {'..','a',''} plus random paths of 1..8 components over "
         "{'..','.','','a','bc','...','a..','..a','x.y'}; lookup: generated trees of depth 1..4 (literal and '#N' segments, "
-        "multi-component names, argument parts, clean and deliberately clashing sibling names) x every walked address plus "
-        "mutated addresses; search: the same trees x locations (root, sub-tree addresses with and without trailing '/', leaf "
+        "multi-component names, argument parts, literal digits, clean and deliberately clashing sibling names) x every walked "
+        "address plus mutated addresses, and families of siblings of which a '#N' meets a literal digit (leading zero = alias, "
+        ">= N, canonical); search: the same trees x locations (root, sub-tree addresses with and without trailing '/', leaf "
         "addresses, missing) x needles (prefixes of child names, '', misses) x the three options, metadata of every length "
         "0..60 incl. NULL and \"\", duplicate names, names below a 'name/' entry.  Non-trivial = a path with '..', a tree "
         "with >= 2 levels or '#', a search returning >= 2 entries.")
 TRUSTED = ["harness/h_C18.cpp builds rtosc::Ports tables at run time (names, metadata blocks in exact-size heap buffers) and "
            "calls Ports::collapsePath, Ports::apropos, Ports::operator[], both rtosc::path_search overloads",
-           "tools/props/ports_common.py: tree generator and the Spec-side reading of names (expansion of '#N')"]
+           "tools/props/ports_common.py: tree generator and the Spec-side reading of names (expansion of '#N', spelling of "
+           "an address by a name, structural descent)"]
 ASSUMPTIONS = ["collapse: the path is absolute (starts with '/'); components may be empty",
-               "lookup: demanded when names_ok holds (the hypothesis of C18_lookup: names of the documented shape - literal "
-               "text may hold digits, sub-tree names of one or more components 'text/' / 'text#N/' - and no two sibling "
-               "names clash), or when names follow the grammar literal / '#N' (1 <= N) without literal digits, leaf names "
-               "carry at most one '#' and no concrete sibling name is a prefix of another",
+               "lookup: demanded for every walked (port, address) whose tables - from the root to the port - hold names of "
+               "the documented form (literal text, digits included, and '#N' with 1 <= N; sub-tree names end in '/') of which "
+               "no concrete name is a prefix of a sibling's concrete name (the proviso of the text, nothing more). Failures "
+               "where two siblings of which a '#N' meets a literal digit both spell the address are the known finding "
+               "lookup-leading-zero-alias (= the complement of the side condition of C18_lookup_partial)",
+               "search: every reply is checked for its shape, the origin of each (name, metadata) pair, the needle, the "
+               "order the option asks for, and the OSC encoding of the reply message; the exact set of children is demanded "
+               "for the root and for every location that names a sub-tree port by structural descent (tables on the way as "
+               "for lookup). What a search at a leaf address, at an address naming nothing, or without the trailing '/' "
+               "returns, the content of the two query strings, and operator[] are compared with the model only",
                "search: types/args buffers large enough for the addressed table (documented precondition of path_search); "
                "metadata blocks in the rMap/rProp/rDoc layout, NULL or \"\"; port names non-empty"]
 
@@ -145,6 +153,37 @@ def gen(rng, tier, dist):
         for opt in (0, 1, 2):
             out.append("search %s %s %s %d 16384 %d" % (pc.enc_tree(tree), hx(loc), hx(needle), opt, 1 if rng.random() < 0.2 else 0))
             bump(dist, "search-wide-table-opt-%d" % opt)
+    # ---- siblings of which a '#N' meets a literal digit: the index text of the literal sibling has
+    # a leading zero (the two names alias: finding class lookup-leading-zero-alias), is >= N (no
+    # alias: the lookup is demanded and must hold), or is canonical (a concrete prefix: outside the text)
+    for k in range(40 if tier == "quick" else 1200):
+        stem = rng.choice([b"a", b"v", b"os"])
+        n = rng.choice([2, 4, 11])
+        digs = rng.choice([b"01", b"00", b"003", b"9", str(n).encode(), str(n + 7).encode(), b"1", b"010"])
+        if rng.random() < 0.5:
+            tail = rng.choice([b"b", b"x", b"b/c"])
+            ps = [pc.mk_port([('L', stem), ('E', n), ('L', tail)], rng.choice([b"", b":i"]), pc.gen_meta(rng), None),
+                  pc.mk_port([('L', stem + digs + tail)], b"", pc.gen_meta(rng), None)]
+        else:
+            deep = [pc.mk_port([('L', b"w")], b"", pc.gen_meta(rng), None), pc.mk_port([('L', b"u")], b"", None, None)]
+            ps = [pc.mk_port([('L', stem), ('E', n), ('L', b"/")], b"", None,
+                             [pc.mk_port([('L', b"x")], b"", pc.gen_meta(rng), None)]),
+                  pc.mk_port([('L', stem + digs + b"/")], b"", pc.gen_meta(rng),
+                             [pc.mk_port([('L', b"y")], b":f", pc.gen_meta(rng), None),
+                              pc.mk_port([('L', b"c/")], b"", None, deep)])]
+        if rng.random() < 0.3:
+            ps.reverse()
+        if rng.random() < 0.5:
+            ps.insert(rng.randint(0, 2), pc.mk_port([('L', b"zz")], b"", None, None))
+        et = pc.enc_tree(ps)
+        walked = [a for _, a, _, _ in pc.text_walk(ps)]
+        out.append("lookup %s %s %s" % (et, ";".join(hx(a) for a in walked + [b"/" + stem + b"1", b"/zz"]), hx(stem)))
+        bump(dist, "digit-facing-lookup-addresses", len(walked) + 2)
+        for _, a, _, _ in pc.subtrees(ps):
+            for opt in (0, 1, 2):
+                out.append("search %s %s %s %d 4096 %d" % (et, hx(a), hx(rng.choice([b"", b"", b"w", b"y"])), opt,
+                                                          1 if rng.random() < 0.3 else 0))
+                bump(dist, "digit-facing-search")
     # ---- trees
     ntree = 700 if tier == "quick" else 25000
     for k in range(ntree):
@@ -189,18 +228,20 @@ def gen(rng, tier, dist):
         names.append(b"self")
         out.append("lookup %s %s %s" % (et, ";".join(hx(a) for a in addrs + extra), ";".join(hx(n) for n in names)))
         bump(dist, "lookup-addresses", len(addrs) + len(extra))
-        # search
-        locs = [b"", b"/"]
-        for _, a, _, _ in subs:
-            locs.append(a)
-            if rng.random() < 0.5:
-                locs.append(a[:-1])
-        for _, a, _, _ in walked[:3]:
-            locs.append(a)
-        locs.append(b"/nonexistent")
+        # search: the root, sub-tree addresses (what the text speaks about), and - for the
+        # comparison with the model - a sub-tree address without its '/', a leaf, a miss
+        sa = [a for _, a, _, _ in subs]
+        rng.shuffle(sa)
+        locs = [rng.choice([b"", b"/"])] + sa[:4]
+        if sa and rng.random() < 0.5:
+            locs.append(rng.choice(sa)[:-1])
+        if walked and rng.random() < 0.6:
+            locs.append(rng.choice(walked)[1])
+        if rng.random() < 0.3:
+            locs.append(rng.choice([b"/nonexistent", b"", b"/"]))
         rng.shuffle(locs)
-        for loc in locs[:5]:
-            tab = resolve(t, loc)
+        for loc in locs[:6]:
+            tab = gen_resolve(t, loc)
             cands = [b""]
             if tab:
                 for p in tab[0]:
@@ -217,19 +258,96 @@ def gen(rng, tier, dist):
                 bump(dist, "search-reply-with-query", rwq)
     return out
 
-def resolve(t, loc):
-    """the Spec's reading of a location: the addressed table (children) or leaf.
-    Returns (children, exact) or None when the location addresses nothing the
-    Spec can name; exact = the oracle may demand the result."""
+def gen_resolve(t, loc):
+    """generator only: the table a location leads to (to pick needles from its names)"""
     if loc in (b"", b"/"):
-        return (t, True)
+        return (t,)
     for ids, a, ok, p in pc.subtrees(t):
         if a == loc:
-            return (p['sub'], ok)
+            return (p['sub'],)
     for ids, a, ok, p in pc.spec_walk(t):
-        if a == loc and pc.n_hash(p['segs']) <= 1:
-            return ([p], ok)
+        if a == loc:
+            return ([p],)
     return None
+
+def osc_decode(m):
+    """own reader of an OSC message: (address, tags, [args]) or None if it is not well-formed"""
+    def cstr(i):
+        j = m.find(b"\0", i)
+        if j < 0:
+            return None
+        k = (j // 4 + 1) * 4
+        if k > len(m) or any(m[j:k]):
+            return None
+        return m[i:j], k
+    r = cstr(0)
+    if r is None:
+        return None
+    addr, i = r
+    r = cstr(i)
+    if r is None or r[0][:1] != b",":
+        return None
+    tags, i = r[0][1:], r[1]
+    args = []
+    for t in tags:
+        if t == 115:
+            r = cstr(i)
+            if r is None:
+                return None
+            args.append(r[0]); i = r[1]
+        elif t == 98:
+            if i + 4 > len(m):
+                return None
+            l = struct.unpack(">i", m[i:i+4])[0]
+            k = i + 4 + (l + 3) // 4 * 4
+            if l < 0 or k > len(m) or any(m[i+4+l:k]):
+                return None
+            args.append(m[i+4:i+4+l]); i = k
+        else:
+            return None
+    if i != len(m):
+        return None
+    return addr, tags, args
+
+def all_ports(t):
+    for p in t:
+        yield p
+        if p['sub'] is not None:
+            yield from all_ports(p['sub'])
+
+def search_candidates(t, loc):
+    """the Spec's reading of a location (structural descent, pc.addressed): the tables whose
+    children the search must return, or None when the text demands nothing (the location
+    names no port, names a leaf, or a table on the way is outside the quantifier).
+    -> (list of child tables, alias)"""
+    if loc in (b"", b"/"):
+        return ([t], False)
+    hits = pc.addressed(t, loc[1:] if loc[:1] == b"/" else loc)
+    if not hits or any(p['sub'] is None or not ok for _, p, ok, _ in hits):
+        return None
+    return ([p['sub'] for _, p, _, _ in hits], any(al for _, _, _, al in hits))
+
+def lookup_failures(case, impl):
+    """[(address, got, want, alias)] for the walked addresses of tables inside the text's proviso"""
+    f = case.split(" ")
+    t = pc.dec_tree(f[1])
+    addrs = [unhx(a) for a in f[2].split(";")]
+    got = impl.split(" ")[0][2:].split(";")
+    if len(got) != len(addrs):
+        return None
+    want = {}
+    for ids, a, ok, p in pc.text_walk(t):
+        if ok:
+            want[a] = pc.show_id(ids)
+    out = []
+    for a, g in zip(addrs, got):
+        if a in want and g != want[a]:
+            named = {pc.show_id(ids): al for ids, _, _, al in pc.addressed(t, a[1:])}
+            # alias: the wanted port lies behind a level where two digit-facing siblings both spell the
+            # beginning of the address, and the answer is one of the ports the address names, or NULL
+            # (the lookup went down the other sibling and found nothing there)
+            out.append((a, g, want[a], bool(named.get(want[a])) and (g == "-" or bool(named.get(g)))))
+    return out
 
 # ------------------------------------------------------------------------------------
 def spec_check(case, impl):
@@ -250,67 +368,91 @@ def spec_check(case, impl):
             return "collapse-frame: bytes before the result were modified"
         return None
     if f[0] == "lookup":
-        t = pc.dec_tree(f[1])
-        addrs = [unhx(a) for a in f[2].split(";")]
-        got = impl.split(" ")[0][2:].split(";")
-        want = {}
-        nok = pc.names_ok(t)          # the decidable hypothesis of C18_lookup
-        for ids, a, ok, p in pc.spec_walk(t):
-            if nok or (ok and pc.n_hash(p['segs']) <= 1):
-                want[a] = pc.show_id(ids)
-        for a, g in zip(addrs, got):
-            if a in want and g != want[a]:
-                return "lookup: apropos(%r) returned port %s, the walk reports it for port %s" % (a, g, want[a])
-        # operator[]: the first port whose name is exactly the key, or the key followed by ':'
-        names = [unhx(n) for n in f[3].split(";")]
-        goti = impl.split(" ")[1][2:].split(";")
-        for n, g in zip(names, goti):
-            w = "-"
-            for i, p in enumerate(t):
-                if p['name'] == n or p['name'].startswith(n + b":"):
-                    w = str(i); break
-            if g != w:
-                return "index: operator[](%r) returned %s, expected %s" % (n, g, w)
+        # the text: an address the walk reported is looked up to the port it was reported with,
+        # provided no sibling's (concrete) name is a prefix of another's - demanded for every
+        # walked pair whose tables satisfy that (pc.table_text_ok).  Nothing else is demanded
+        # (operator[] and unwalked addresses are compared with the model only).
+        fl = lookup_failures(case, impl)
+        if fl is None:
+            return "lookup-shape: %d answers for %d addresses" % (len(impl.split(" ")[0][2:].split(";")), len(f[2].split(";")))
+        fl.sort(key=lambda x: x[3])        # a failure outside the known alias class first
+        for a, g, w, alias in fl:
+            return "lookup: apropos(%r) returned port %s, the walk reports it for port %s" % (a, g, w)
         return None
     if f[0] == "search":
         t = pc.dec_tree(f[1])
         loc, needle, opt, bufsize, rwq = unhx(f[2]), unhx(f[3]), int(f[4]), int(f[5]), f[6] == "1"
-        r = resolve(t, loc)
-        if r is None or not r[1]:
-            return None
-        if any(not p['name'] for p in r[0]):
-            return None
+        # ---- demanded of every reply: shape, origin of the entries, order, encoding
         if not impl.startswith("q="):
-            return "search: no result (%s)" % impl[:100]
-        want = canon_entries(spec_search(r[0], needle, opt))
+            return "search-shape: the type string is not (ss)? (sb)* (%s)" % impl[:100]
         m = dict(x.split("=", 1) for x in impl.split(" "))
-        got = canon_entries(parse_entries(m["e"]))
-        if m["q"] != ("%s:%s" % (hx(loc), hx(needle)) if rwq else "N"):
-            return "search-query: the reply does not start with the two query strings (%s)" % m["q"]
-        if got != want:
-            return "search-%d: location %r needle %r returned %r, the children give %r" % (opt, loc, needle, got, want)
-        # the reply message: well-formed, carries exactly those entries (in the order the
-        # first overload reported them: both run the same deterministic sort)
-        msg = spec_reply(parse_entries(m["e"]), (loc, needle) if rwq else None)
+        got = parse_entries(m["e"])
+        if int(m["n"]) != len(got):
+            return "search-shape: %s entries announced, %d listed" % (m["n"], len(got))
+        known = {(p['name'],) + blob_of(p['meta']) for p in all_ports(t)}
+        for e in got:
+            if e[0] is None:
+                return "search-shape: an entry without a name inside the reported range"
+            if not e[0].startswith(needle):
+                return "search-prefix: entry %r does not start with the needle %r" % (e[0], needle)
+            if (e[0], e[1], e[2] if e[1] else None) not in known:
+                return "search-pair: entry %r is no port of the tree paired with its metadata bytes" % (e,)
+        names = [e[0] for e in got]
+        if opt >= 1 and names != sorted(names):
+            return "search-%d: the entries are not in string order: %r" % (opt, names)
+        if opt == 2 and any(below(x, y) for x in names for y in names):
+            return "search-2: an entry lies below a returned 'name/' entry: %r" % (names,)
         ret, hexm = m["msg"].split(":")
-        if len(msg) <= bufsize:
-            if int(ret) != len(msg) or unhx(hexm) != msg:
-                return "reply: message %s differs from the OSC encoding of the entries" % hexm[:80]
-        elif int(ret) != 0:
-            return "reply: %d bytes reported for a %d-byte buffer (message needs %d)" % (int(ret), bufsize, len(msg))
+        ret, msg = int(ret), unhx(hexm) if hexm else b""
+        if ret:
+            d = osc_decode(msg) if ret == len(msg) and ret <= bufsize else None
+            if d is None:
+                return "reply: %d bytes returned, not a well-formed OSC message in the %d-byte buffer" % (ret, bufsize)
+            addr, tags, args = d
+            k0 = 2 if tags[:2] == b"ss" else 0
+            if addr != b"/paths" or tags[k0:] != b"sb" * ((len(tags) - k0) // 2) or len(tags) % 2:
+                return "reply: address %r, type string %r: not /paths (ss)? (sb)*" % (addr, tags)
+            pairs = [(args[i], len(args[i+1]), args[i+1] or None) for i in range(k0, len(args), 2)]
+            flat = [(e[0], e[1], e[2] if e[1] else None) for e in got]
+            if (pairs if opt == 0 else canon_entries(pairs)) != (flat if opt == 0 else canon_entries(flat)):
+                return "reply: the message carries %r, the search reported %r" % (pairs, flat)
+        elif len(spec_reply(got, (loc, needle) if rwq else None)) <= bufsize:
+            return "reply: nothing returned although the %d-byte message fits the %d-byte buffer" % (
+                len(spec_reply(got, (loc, needle) if rwq else None)), bufsize)
+        # ---- the addressed port: exactly its direct children whose names start with the needle
+        c = search_candidates(t, loc)
+        if c is None:
+            return None
+        flat = [(e[0], e[1], e[2] if e[1] else None) for e in got]
+        wants = []
+        for tab in c[0]:
+            if any(not p['name'] for p in tab):
+                return None
+            w = spec_search(tab, needle, opt)
+            wants.append(w if opt == 0 else canon_entries(w))
+        if (flat if opt == 0 else canon_entries(flat)) not in wants:
+            return "search-%d: location %r needle %r returned %r, the children give %r" % (opt, loc, needle, flat, wants[0])
         return None
     return "generator: unknown stream"
+
+def mirror_bits(t):
+    """names_ok and the predicates of LookupSpec.v as the generator reads them (canon compares
+    them with the values of the extracted Coq functions on every lookup case)"""
+    rt = pc.roundtrip(t)
+    return "".join("1" if rt and g(t) else "0" for g in
+                   (pc.names_ok, pc.names_shape, pc.enums_pos, pc.sibling_prefix_free, pc.key_prefix_free, pc.no_digit_facing))
 
 def canon(case, line):
     f = case.split(" ")
     if f[0] == "lookup" and line.startswith("a="):
-        # names_ok: extracted Coq function (model line) vs the generator's mirror (implementation line)
         if " ok=" in line:
             return line
-        return line + " ok=%d" % (1 if pc.names_ok(pc.dec_tree(f[1])) else 0)
+        return line + " ok=" + mirror_bits(pc.dec_tree(f[1]))
     if f[0] == "search" and line.startswith("q="):
         m = dict(x.split("=", 1) for x in line.split(" "))
         raw = parse_entries(m["e"])
+        if f[4] == "0":
+            return line                  # table order: nothing is unspecified
         es = canon_entries(raw)
         ret, hexm = m["msg"].split(":")
         if len({e[0] for e in es}) == len(es):
@@ -331,6 +473,18 @@ def nontrivial(case, impl):
     return False
 
 def classify(case, impl, failure):
+    """lookup-leading-zero-alias: the address is spelled by two siblings of which a '#N' meets a
+    literal digit (a#4b / a01b: "01" is an index of a#4b, C05) and apropos answered with the other
+    one - the complement of the side condition no_digit_facing of C18_lookup_partial"""
+    f = case.split(" ")
+    if failure.startswith("lookup:"):
+        fl = lookup_failures(case, impl)
+        if fl and all(x[3] for x in fl):
+            return "lookup-leading-zero-alias"
+    if failure.startswith("search-") and failure[7:8] in "012" and "returned" in failure:
+        c = search_candidates(pc.dec_tree(f[1]), unhx(f[2]))
+        if c is not None and c[1]:
+            return "lookup-leading-zero-alias"
     return None
 
 TECHNIQUE = ("Coq proofs (induction over the component list; invariants of the backward cursor pass; sortedness and "
@@ -341,8 +495,11 @@ LEVEL_TEXT = ("collapsePath: for every absolute path (any number and length of c
               "(C18_collapse). path_search: for every addressed table the three options return exactly the children whose names "
               "start with the needle, paired with their metadata bytes - in table order / as a sorted permutation / as the sorted "
               "permutation of the names not below a 'name/' entry, duplicates kept (C18_search_*), and the reply is the C01 "
-              "encoding of those pairs (C18_reply_wellformed). Lookup: every address the walk reports is found by apropos, for names "
-              "of the documented shape whose siblings do not clash - a decidable condition evaluated on every generated tree "
-              "(C18_lookup; C18_lookup_partial with the semantic condition).")
+              "encoding of those pairs (C18_reply_wellformed); the addressed table is the children of the port the location names by "
+              "structural descent with C05's spelling relation, for leaves and sub-trees at any depth (C18_addressed_port, "
+              "C18_search_addressed). Lookup: the clause as written is false (C18_lookup_refuted: siblings a#4b / a01b, known "
+              "finding lookup-leading-zero-alias); every address the walk reports is found by apropos for names of the documented "
+              "shape whose concrete sibling names are prefix-free AND where no '#N' meets a literal digit of a sibling - four "
+              "decidable conditions evaluated on every generated tree (C18_lookup_partial).")
 LEVEL_NOTE = ("Trusted: Coq kernel, extraction, OCaml driver, harness, generator. The C++ code is modelled by hand "
               "(coq/Ports/PathModel.v, NameModel.v) and related to the model only by the correspondence run.")
